@@ -89,5 +89,6 @@ def main(tier, replay=None):
         "near twins (relative 2^-17), contradictions; through TermList.simplify with/without context and through contract "
         "construction; non-trivial = simplification returned and dropped at least one row, or raised on an infeasible system",
         owner=lambda ev: PROP, replay=replay,
+        extra=lambda rep, rd: __import__("lpalgo").conformance(rep, rd, PROP, {"reduce"}, 200 if tier == "quick" else 4000, seed()),
         nontrivial=lambda ev, kind, detail: kind == "ok" and (len(ev["R"]) < len(ev["S"]) or ev["exc"] != "none"),
     )
